@@ -12,6 +12,11 @@ import Driver.Util
   tya <m.i=k,...> <ty>  type-argument arity validation                  -> 1 | 0
   conf <sig>* | <sig>*  expected | declared; sig ::= name/pub/[n=ty]*[n=-]*/ty  -> 1 | 0
   bnd <targ> <bound> <super>*                                           -> 1 | 0
+  abs <m.i=0|1,...> <enforce 0|1> <ty>  abstract-type gate                   -> 1 | 0
+  confi <tp,..> <targ>* | <iface sig>* | <declared sig>*                 -> 1 | 0
+  nam class <name=mod,..|-> <cur> <m.i=0|1,..> <name> ; nam module <m,..> <m> ;
+  nam member <n=pub,..|-> <n=pub,..|-> <name>                            -> 1 | 0
+  sup <m.i/tp,tp/ty|ty ...>* ? <ty>   transitive super types -> c=<cyclic> x=<fuel exhausted> <ty>|<ty>…
 Type syntax (prefix, no blanks): a0 a1 | u b i | g<n>; | n<s>,<m>,<id>(<ty>*) | f(<ty>*)<ty> -/
 namespace Driver.C06
 open SamVerif Driver
@@ -137,6 +142,30 @@ def parseSig (s : String) : Option Gates.MSig :=
     | _, _, _ => none
   | _ => none
 
+def parsePairs (s : String) : List (Nat × Nat) :=
+  if s == "-" then [] else
+  (s.splitOn ",").filterMap fun e =>
+    match e.splitOn "=" with
+    | [a, b] => match a.toNat?, b.toNat? with
+      | some a, some b => some (a, b)
+      | _, _ => none
+    | _ => none
+
+def parseDecl (s : String) : Option Gates.Decl :=
+  match s.splitOn "/" with
+  | [mi, tps, sups] =>
+    match mi.splitOn "." with
+    | [m, i] =>
+      match m.toNat?, i.toNat? with
+      | some m, some i =>
+        let ss := if sups == "-" then [] else (sups.splitOn "|").map parseTyS
+        if ss.all Option.isSome then
+          some { key := (m, i), tparams := (tps.splitOn ",").filterMap String.toNat?, supers := ss.filterMap id }
+        else none
+      | _, _ => none
+    | _ => none
+  | _ => none
+
 def step (_ : Unit) (line : String) : Unit × String :=
   match words line with
   | "tok" :: raws =>
@@ -186,6 +215,49 @@ def step (_ : Unit) (line : String) : Unit × String :=
       let ss := supers.map parseTyS
       if ss.all Option.isSome then ((), bit (Gates.boundOk t (ss.filterMap id) b)) else ((), "bad-type")
     | _, _ => ((), "bad-type")
+  | ["abs", tab, enf, ty] =>
+    match parseTyS ty with
+    | some t =>
+      let kt : Gates.KindTable := (parseArity tab).map fun e => (e.1, e.2 == 1)
+      ((), bit (Gates.concreteOk kt (enf == "1") t))
+    | none => ((), "bad-type")
+  | "confi" :: tps :: rest =>
+    let targs := (rest.takeWhile (· != "|")).map parseTyS
+    let rest2 := (rest.dropWhile (· != "|")).drop 1
+    let iface := (rest2.takeWhile (· != "|")).map parseSig
+    let dec := ((rest2.dropWhile (· != "|")).drop 1).map parseSig
+    if targs.all Option.isSome && iface.all Option.isSome && dec.all Option.isSome then
+      ((), bit (Gates.classConformsInst ((tps.splitOn ",").filterMap String.toNat?) (targs.filterMap id)
+        (iface.filterMap id) (dec.filterMap id)))
+    else ((), "bad-sig")
+  | ["nam", "class", imps, cur, tab, name] =>
+    match cur.toNat?, name.toNat? with
+    | some cur, some name =>
+      let t : List ((Nat × Nat) × Bool) := (parseArity tab).map fun e => (e.1, e.2 == 1)
+      ((), bit (Gates.classIdResolved (parsePairs imps) cur t name))
+    | _, _ => ((), "bad-op")
+  | ["nam", "module", mods, m] =>
+    match m.toNat? with
+    | some m => ((), bit (Gates.moduleResolved ((mods.splitOn ",").filterMap String.toNat?) m))
+    | none => ((), "bad-op")
+  | ["nam", "member", ms, fs, name] =>
+    match name.toNat? with
+    | some name =>
+      let conv := fun (l : List (Nat × Nat)) => l.map fun p => (p.1, p.2 == 1)
+      ((), bit (Gates.memberAccessResolved ⟨1, 1⟩ ⟨1, 2, false⟩ (conv (parsePairs ms)) (conv (parsePairs fs)) name))
+    | none => ((), "bad-op")
+  | "sup" :: rest =>
+    let decls := (rest.takeWhile (· != "?")).map parseDecl
+    match (rest.dropWhile (· != "?")).drop 1 with
+    | [q] =>
+      match parseTyS q with
+      | some t =>
+        if decls.all Option.isSome then
+          let r := Gates.resolveSupers (decls.filterMap id) t
+          ((), s!"c={bit r.2.1} x={bit r.2.2} {if r.1.isEmpty then "-" else "|".intercalate (r.1.map showTy)}")
+        else ((), "bad-decl")
+      | none => ((), "bad-type")
+    | _ => ((), "bad-op")
   | ["slv", tps, c, g] =>
     let ns := ((tps.splitOn ",").filterMap String.toNat?)
     match parseTyS c, parseTyS g with
